@@ -77,6 +77,11 @@ chk("C19", "model_checking", "explicit-state exploration of every command builde
     "Trusted: field widths/semantics transcribed from LoRaWAN 1.0.x, TS009, TS005 in c19.rs. One known finding (DeviceTimeAns byte order, pinned by existing tests) is listed in known_findings.json.",
     "DESIGN.md §3 C19")
 
+chk("C15", "exploration", "exhaustive enumeration of SF x BW x chip variant against an exact rational rule, SPI writes decoded",
+    "All 8 spreading factors x 10 bandwidths x {airtime calculator, SX1261, SX1262, STM32WL LP/HP, SX1272, SX1276, LR1110}: the LDRO decision in the parameter structs and the bit the real driver writes on SPI in set_modulation_params (with all 256 prior values of the read-modify-write register for the register-based chips) are compared with 2^SF/BW >= 16.38 ms evaluated in exact rational arithmetic. The space is finite and enumerated completely.",
+    "Trusted: the decode positions of the LDRO bit (SX126x SetModulationParams byte 4, SX1276 RegModemConfig3 bit 3, SX1272 RegModemConfig1 bit 0, LR11xx SetModulationParam byte 4). Where nominal and true bandwidth disagree (SF8/15.6 kHz) only agreement with the airtime calculator is required.",
+    "DESIGN.md §3 C15")
+
 ALL = ["C%02d" % i for i in range(1, 21)]
 NA_REASON = "check not built yet in this round; see DESIGN.md for the planned bounded exploration"
 
